@@ -38,3 +38,53 @@ pub fn emit_main(args: &[String]) {
         Err(_) => println!("PANIC"),
     }
 }
+
+fn sx(e: &incan::ast::Expr) -> String {
+    use incan::ast::{Expr, Literal, UnaryOp};
+    match e {
+        Expr::Ident(n) => n.clone(),
+        Expr::Literal(Literal::Int(n)) => n.to_string(),
+        Expr::Literal(l) => format!("{l:?}"),
+        Expr::Binary(l, op, r) => format!("({op:?} {} {})", sx(&l.node), sx(&r.node)),
+        Expr::Unary(UnaryOp::Neg, x) => format!("(Neg {})", sx(&x.node)),
+        Expr::Unary(UnaryOp::Not, x) => format!("(Not {})", sx(&x.node)),
+        Expr::Paren(x) => format!("(Paren {})", sx(&x.node)),
+        Expr::Index(o, i) => format!("(Index {} {})", sx(&o.node), sx(&i.node)),
+        Expr::Slice(t, s) => {
+            let p = |o: &Option<Box<incan::ast::Spanned<Expr>>>| o.as_ref().map(|x| sx(&x.node)).unwrap_or_else(|| "None".to_string());
+            format!("(Slice {} {} {} {})", sx(&t.node), p(&s.start), p(&s.end), p(&s.step))
+        }
+        other => format!("<{}>", format!("{other:?}").split('(').next().unwrap_or("?")),
+    }
+}
+
+/// `astdump <file>`: parse the file; for every function print `AST <name> <s-expression of its first return / expression statement>`.
+pub fn ast_main(args: &[String]) {
+    use incan::ast::{Declaration, Statement};
+    let src = std::fs::read_to_string(&args[0]).expect("readable source file");
+    let r = std::panic::catch_unwind(|| {
+        let tokens = incan::lexer::lex(&src).map_err(|e| format!("LEX-ERROR {}", e.len()))?;
+        let program = incan::parser::parse(&tokens)
+            .map_err(|e| format!("PARSE-ERROR {}: {}", e.len(), e.iter().map(|x| x.message.clone()).collect::<Vec<_>>().join(" | ")))?;
+        let mut out = Vec::new();
+        for d in &program.declarations {
+            if let Declaration::Function(f) = &d.node {
+                for st in &f.body {
+                    match &st.node {
+                        Statement::Return(Some(e)) | Statement::Expr(e) => {
+                            out.push(format!("AST {} {}", f.name, sx(&e.node)));
+                            break;
+                        }
+                        _ => {}
+                    }
+                }
+            }
+        }
+        Ok::<_, String>(out.join("\n"))
+    });
+    match r {
+        Ok(Ok(s)) => println!("{s}"),
+        Ok(Err(e)) => println!("{e}"),
+        Err(_) => println!("PANIC"),
+    }
+}
